@@ -115,7 +115,11 @@ def _run_case(case, prog, method):
             b2.eval_dx(method)
             o4 = b2.out_dx.expr.optimize()
             bump("repetitions_compared", 3)
-            for tag, o in (("repeat", o2), ("after-gc", o3), ("rebuilt", o4)):
+            # a persisted value is named after its DATA; where the program leaves the row order undefined (tied sort, shuffle)
+            # two builds may legitimately persist differently ordered rows: the rebuilt plan is then not comparable
+            ns_ = len(prog["sources"])
+            persist_of_unordered = any(st_["op"] == "persist" and not b.pd_vals[st_["in"][0]].order for st_ in prog["steps"])
+            for tag, o in (("repeat", o2), ("after-gc", o3)) + ((("rebuilt", o4),) if not persist_of_unordered else ()):
                 if o._name != n1 or o.tree_repr() != t1:
                     viol = {"oracle": "deterministic_plan", "symptom": "plan-differs-between-repetitions", "which": tag, "a": t1[:600], "b": o.tree_repr()[:600]}
                     break
